@@ -2,6 +2,8 @@
 mod common;
 mod generic;
 mod kzg;
+mod marlin;
+mod props_marlin;
 mod props_kzg;
 mod props_c04;
 mod props_c06;
@@ -135,26 +137,31 @@ fn main() {
     match prop.as_str() {
         "C01" => {
             props_kzg::c01(&mut ctx);
+            props_marlin::c01(&mut ctx);
             let n = ctx.n(12, 150);
             all_schemes!(c01, &mut ctx, n);
         }
         "C02" => {
             props_kzg::c02(&mut ctx);
+            props_marlin::c02(&mut ctx);
             let n = ctx.n(6, 80);
             all_schemes!(c02_c05, &mut ctx, "C02", n);
         }
         "C03" => {
             props_kzg::c03(&mut ctx);
+            props_marlin::c03(&mut ctx);
             let n = ctx.n(5, 60);
             all_schemes!(c02_c05, &mut ctx, "C03", n);
         }
         "C05" => {
             props_kzg::c05(&mut ctx);
+            props_marlin::c05(&mut ctx);
             let n = ctx.n(6, 80);
             all_schemes!(c02_c05, &mut ctx, "C05", n);
         }
         "C10" => {
             props_kzg::c10(&mut ctx);
+            props_marlin::c10(&mut ctx);
         }
         "C04" => props_c04::run(&mut ctx),
         "C06" => props_c06::run(&mut ctx),
